@@ -206,6 +206,30 @@ def replay_script(root, consts, steps, rnd):
 
 
 # ---------------------------------------------------------------------------
+def renumber_restart(root, names):
+    """Between two lifetimes: give the active paths of the restart file other numbers (directories, [current] active /
+    locked / frac, traj_num), as if the run had been going on for much longer.  What a restart then finds on disk is a
+    state the program could have written itself; numbers such as 21 and 211 are live together."""
+    import tomli
+    import tomli_w
+    path = os.path.join(root, "restart.toml")
+    with open(path, "rb") as fh:
+        cfg = tomli.load(fh)
+    cur = cfg["current"]
+    active = [int(a) for a in cur["active"]]
+    assert len(names) >= len(active) and min(names) > int(cur["traj_num"])
+    mp = {old: new for old, new in zip(sorted(active), names)}
+    load = os.path.join(root, cfg["simulation"].get("load_dir", "load"))
+    for old, new in mp.items():
+        os.rename(os.path.join(load, str(old)), os.path.join(load, str(new)))
+    cur["active"] = [mp[a] for a in active]
+    cur["locked"] = [[ens, [str(mp[int(p)]) for p in pns]] for ens, pns in cur.get("locked", [])]
+    cur["frac"] = {str(mp.get(int(k), int(k))): v for k, v in cur.get("frac", {}).items() if int(k) in mp}
+    cur["traj_num"] = max(names) + 1
+    with open(path, "wb") as fh:
+        tomli_w.dump(cfg, fh)
+
+
 def random_run(root, n, workers, steps, seed, sched_seed, moves=None, cap=None, plan=(), **kw):
     """A real run: real draws, real lattice moves, random completion order.
 
@@ -251,6 +275,8 @@ def random_run(root, n, workers, steps, seed, sched_seed, moves=None, cap=None, 
             seg.close()
             seg = None
             if killed:
+                if plan and plan[0][0] == "renumber":
+                    renumber_restart(root, plan.pop(0)[1])
                 seg = sysdrv.Segment(root, inp="restart.toml")
                 ok = seg.start()
                 continue
